@@ -297,7 +297,45 @@ def plain_fails(case):
     return None
 
 
+def eig_case(rng):
+    n = rng.randint(1, 3)
+    D, P = rng.randint(1, 2), rng.randint(1, 2)
+    kind = rng.choice(['real', 'hermitian', 'hermitian'])
+    x = rand_coeffs(rng, (D, P, n, n), -1, 1)
+    if kind == 'real':
+        for p in range(P):
+            V = rand_coeffs(rng, (n, n), -1, 1) + 2 * np.eye(n)
+            x[0, p] = V @ np.diag(np.array(rng.sample([-2., -1., 0.5, 1.5, 3.], n))) @ np.linalg.inv(V)
+    else:
+        x = x + 1j * rand_coeffs(rng, x.shape, -1, 1)
+        x = (x + np.conj(np.swapaxes(x, 2, 3))) / 2
+        for p in range(P):
+            x[0, p] += np.diag(np.array(rng.sample([-2., -1., 0.5, 1.5, 3.], n)))
+    return {'op': 'eig0', 'kind': kind, 'D': D, 'P': P, 'x': x}
+
+
+def eig_fails(case):
+    """eig: eigenvectors are fixed only up to scaling, so the zeroth coefficients are compared through what NumPy's result
+    satisfies as well: the eigenvalues are NumPy's (as a set) and A_0 Q_0 = Q_0 diag(lambda_0) with an invertible Q_0"""
+    x = np.array(case['x'])
+    try:
+        l, Q = algopy.eig(UTPM(x.copy()))
+    except Exception as ex:
+        return 'eig0-exception: %s' % (type(ex).__name__ + ':' + str(ex)[:80])
+    for p in range(x.shape[1]):
+        l0, Q0, A0 = l.data[0, p], Q.data[0, p], x[0, p]
+        w = np.linalg.eigvals(A0)
+        if l0.shape != w.shape or not np.allclose(np.sort_complex(l0.astype(complex)), np.sort_complex(w.astype(complex)), atol=1e-9):
+            return 'eig0-values: the zeroth coefficient of the eigenvalues is not numpy.linalg.eigvals(A_0) (direction %d, %s input)' % (p, case['kind'])
+        if not np.allclose(A0 @ Q0, Q0 * l0[None, :], atol=1e-9) or abs(np.linalg.det(Q0)) < 1e-8:
+            return 'eig0-vectors: the zeroth coefficients do not satisfy A_0 Q_0 = Q_0 diag(lambda_0) with invertible Q_0 (direction %d, %s input, Q dtype %s)' % (
+                p, case['kind'], Q.data.dtype)
+    return None
+
+
 def replay_case(ctx, case):
+    if case.get('op') == 'eig0':
+        return eig_fails(case)
     if case.get('op') == 'cmp':
         return cmp_fails(case)
     if case.get('op') == 'plain':
@@ -366,6 +404,13 @@ def run(ctx):
                 f = cmp_fails(case)
                 if f:
                     ctx.report(case, 'failure', f)
+    for i in range(40 if ctx.tier == 'quick' else 400):
+        case = eig_case(ctx.rng)
+        ctx.evaluations += 1
+        ctx.count('eig0=' + case['kind'])
+        f = eig_fails(case)
+        if f:
+            ctx.report(case, 'failure', f)
     for i in range(100 if ctx.tier == 'quick' else 1000):
         case = plain_case(ctx.rng)
         ctx.evaluations += 1
